@@ -17,7 +17,7 @@ func init() {
 	Register(&Prop{
 		ID:       "C05",
 		NeedsCLI: true,
-		Chunk: 40,
+		Chunk:    40,
 		Count: func(c *Ctx) int {
 			if c.Thorough() {
 				return 40000
